@@ -211,8 +211,13 @@ pub fn build_options(opts: &OptSpec) -> Result<Options, String> {
     }
     match &opts.config {
         ConfigSource::Object(text) => {
-            let configuration: Configuration = json5::from_str(text)
+            let mut configuration: Configuration = json5::from_str(text)
                 .map_err(|err| format!("configuration object does not parse: {}", err))?;
+            if let Some(deps) = &opts.include_deps {
+                let rule: Box<dyn darklua_core::rules::Rule> =
+                    Box::new(crate::include_rule::VerifInclude::new(deps.clone()));
+                configuration = configuration.with_rule(rule);
+            }
             options = options.with_configuration(configuration);
         }
         ConfigSource::Default => {}
@@ -266,6 +271,7 @@ pub fn fresh_process(resources: &Resources, opts: &OptSpec) -> Outcome {
         Ok(options) => options,
         Err(err) => return Outcome::BatchErr(format!("harness: {}", err)),
     };
+    crate::include_rule::reset_loop_guard();
     match catch(|| darklua_core::process(resources, options)) {
         Err(panic) => Outcome::Panic(panic),
         Ok(Err(err)) => Outcome::BatchErr(err.to_string()),
